@@ -3,9 +3,10 @@ import oracle
 import gens
 import tpcommon as T
 from engine import Op, set_mode
+from props import c01
 
 PROP = "C05"
-LEAN_MODULES = ["IsoDT.Props.C05"]
+LEAN_MODULES = ["IsoDT.Props.C05", "IsoDT.Props.C05q"]
 RULE = ("time points at month ends, leap days, day 365/366, week 52/53 (3 representations, any offset) x "
         "month / year counts of either sign, alone and mixed with exact units; thorough: exhaustive over "
         "(mode, year type, month, day >= 28) x n in [-25, 25]; non-trivial when a clamp applies or a year "
@@ -92,6 +93,8 @@ class AddNominal(Op):
     prop = PROP
     name = "addnom"
     shard = None
+    sibling = T.tp_sibling(1)
+    sibling_rate = 0.1
 
     def gen(self, rng, tier, boost):
         n = 1500 * boost if tier == "quick" else 5000 * boost
@@ -210,5 +213,146 @@ class AddMonths(Op):
 THOROUGH_EXHAUSTIVE = False
 
 
+class AddNominalQ(Op):
+    """`p + d` for a mixed duration on points in any precision form (decimal seconds / minutes / hours), against the
+    rational-slot model `addDurQ` (Props/C05q): representation, offset, slot pattern and the instant to 1 us; the
+    oracle is the property's rule - exact part first (instant arithmetic), then months, then years on the local
+    date, time of day untouched."""
+    prop = PROP
+    name = "addnomq"
+
+    def gen(self, rng, tier, boost):
+        from fractions import Fraction
+        n = (2500 if tier == "quick" else 40000) * boost
+        if getattr(self, "shard", None):
+            n = n // self.shard[1] + 1
+        for _ in range(n):
+            m = gens.mode(rng)
+            t = T.gen_tp(rng, m, allow24=rng.random() < 0.15)
+            if abs(t[1]) > 9000:
+                continue
+            form = rng.choice("smh")
+            frac = Fraction(rng.choice([0, 1, 5, 25, 125, 250, 500, 750, 999, rng.randint(0, 999)]), 1000)
+            if t[4] == 24:
+                frac = Fraction(0)
+            nom = gen_nominal(rng)
+            _, y, mo, d, h, mi, sec = nom
+            r = rng.random()
+            fh = fmi = fs = Fraction(0)
+            if r < 0.4:
+                fh, fmi, fs = (Fraction(rng.choice([0, 1, -1, 23, 25]), rng.choice([1, 2, 4])),
+                               Fraction(rng.choice([0, 1, -59, 61]), rng.choice([1, 2, 8])),
+                               Fraction(rng.choice([0, 1, -1, 86399]), rng.choice([1, 4, 1000])))
+            yield (m, t, form, c01._q(frac), y, mo, d, c01._q(h + fh), c01._q(mi + fmi), c01._q(sec + fs))
+
+    slots = None
+
+    def _slots(self, a):
+        from fractions import Fraction
+        m, t, form, frac = a[:4]
+        rep, y, aa, b, hh, mi, ss, tzh, tzm = t
+        fr = c01._parse_q(frac)
+        if form == "s":
+            return (Fraction(hh), Fraction(mi), ss + fr)
+        if form == "m":
+            return (Fraction(hh), mi + fr, None)
+        return (hh + fr, None, None)
+
+    def line(self, a):
+        m, t, form, frac, y, mo, d, dh, dmi, ds = a
+        rep, yy, aa, b, hh, mi, ss, tzh, tzm = t
+        h_, m_, s_ = self._slots(a)
+        return "addnomq %s %s %d %d %d %s %s %s %d %d %d %d %d %s %s %s" % (
+            m, rep, yy, aa, b, c01._q(h_), "_" if m_ is None else c01._q(m_), "_" if s_ is None else c01._q(s_),
+            tzh, tzm, y, mo, d, dh, dmi, ds)
+
+    def impl(self, a):
+        from fractions import Fraction
+        from metomi.isodatetime.data import TimePoint, Duration
+        m, t, form, frac, y, mo, d, dh, dmi, ds = a
+        set_mode(m)
+        rep, yy, aa, b, hh, mi, ss, tzh, tzm = t
+        kw = dict(year=yy, time_zone_hour=tzh, time_zone_minute=tzm, hour_of_day=hh)
+        if not 0 <= yy <= 9999:
+            kw["num_expanded_year_digits"] = 3
+        if rep == "c":
+            kw.update(month_of_year=aa, day_of_month=b)
+        elif rep == "o":
+            kw.update(day_of_year=aa)
+        else:
+            kw.update(week_of_year=aa, day_of_week=b)
+        fr = float(c01._parse_q(frac))
+        if form == "s":
+            kw.update(minute_of_hour=mi, second_of_minute=ss, second_of_minute_decimal=fr)
+        elif form == "m":
+            kw.update(minute_of_hour=mi, minute_of_hour_decimal=fr)
+        else:
+            kw.update(hour_of_day_decimal=fr)
+        p = TimePoint(**kw)
+
+        def num(tok):
+            v = c01._parse_q(tok)
+            return int(v) if v.denominator == 1 else float(v)
+        dur = Duration(years=y, months=mo, days=d, hours=num(dh), minutes=num(dmi), seconds=num(ds))
+        r = p + dur
+        if r.get_is_calendar_date():
+            date = ("c",) + tuple(r.get_calendar_date())
+        elif r.get_is_ordinal_date():
+            date = ("o",) + tuple(r.get_ordinal_date())
+        else:
+            date = ("w",) + tuple(r.get_week_date())
+        h2, m2, s2 = r._hour_of_day, r._minute_of_hour, r._second_of_minute
+        self.last = (h2, m2, s2)
+        return c01.AddQ.canon(m, date[0], date, Fraction(h2), None if m2 is None else Fraction(m2),
+                              None if s2 is None else Fraction(s2), r.time_zone.hours, r.time_zone.minutes)
+
+    def canon_model(self, a, out):
+        f = out.split()
+        if len(f) != 9:
+            return out
+        rep, y, aa, b = f[0], int(f[1]), int(f[2]), int(f[3])
+        date = (rep, y, aa) if rep == "o" else (rep, y, aa, b)
+        return c01.AddQ.canon(a[0], rep, date, c01._parse_q(f[4]), c01._parse_q(f[5]), c01._parse_q(f[6]),
+                              int(f[7]), int(f[8]))
+
+    def oracle(self, a, out):
+        from fractions import Fraction
+        m, t, form, frac, y, mo, d, dh, dmi, ds = a
+        f = out.split()
+        what = "%s (form %s, fraction %s) + P%dY%dM%dDT%sH%sM%sS in %s" % (T.describe_tp(t), form, frac, y, mo, d, dh,
+                                                                        dmi, ds, m)
+        if len(f) != 5:
+            return "%s failed: %s" % (what, out)
+        rep, yy, aa, b, hh, mi, ss, tzh, tzm = t
+        h_, m_, s_ = self._slots(a)
+        date = (rep, yy, aa) if rep == "o" else (rep, yy, aa, b)
+        off = 3600 * tzh + 60 * tzm
+        local = (86400 * oracle.date_day_num(m, date) + 3600 * h_ + 60 * (m_ or 0) + (s_ or 0)
+                 + 86400 * d + 3600 * c01._parse_q(dh) + 60 * c01._parse_q(dmi) + c01._parse_q(ds))
+        day = local // 86400          # floor on a Fraction
+        tod = local - 86400 * day
+        if rep == "c":
+            date1 = ("c",) + oracle.cal_of_day_num(m, day)
+        elif rep == "o":
+            date1 = ("o",) + oracle.ord_of_day_num(m, day)
+        else:
+            date1 = ("w",) + oracle.week_of_day_num(m, day)
+        date2 = spec_add_years(m, spec_add_months(m, date1, mo), y)
+        want = 86400 * oracle.date_day_num(m, date2) + tod - off
+        if abs(int(f[4]) - want * 10 ** 6) > 1:
+            return "%s is off by %.6f s from the calendar rule (exact part, then months, then years)" % (
+                what, float(Fraction(int(f[4]), 10 ** 6) - want))
+        if f[0] != rep or (int(f[1]), int(f[2])) != (tzh, tzm):
+            return "%s changed representation or offset" % what
+        if f[3] != {"s": "hms", "m": "hm", "h": "h"}[form]:
+            return "%s changed the precision form (%s from %s)" % (what, f[3], form)
+        h2, m2, s2 = self.last
+        if not (0 <= h2 < 24 and (m2 is None or 0 <= m2 < 60) and (s2 is None or 0 <= s2 < 60)):
+            return "%s left a time slot out of range: %r" % (what, (h2, m2, s2))
+
+    def label(self, a):
+        return "addnomq/%s/%s/%s" % (a[0], a[2], "24" if a[1][4] == 24 else "n")
+
+
 def ops():
-    return [AddNominal(), AddMonths()]
+    return [AddNominal(), AddMonths(), AddNominalQ()]
